@@ -339,6 +339,25 @@ int main(void)
 			}
 			free(name);
 		}
+		else if (!strcmp(op, "whole") && drv_nw == 3) {
+			/* the empty name: description of the whole object, result says whether it differs from the defaults;
+			 * no property argument: the type id of the kind */
+			struct obj *ob = parse_obj(drv_w[2]);
+			MPT_STRUCT(property) pr = MPT_PROPERTY_INIT;
+			int ret, tid;
+			if (!ob) { puts("bad-op"); continue; }
+			pr.name = "";
+			ret = kind_get(ob->kind, ob->data, &pr);
+			tid = kind_get(ob->kind, ob->data, 0);
+			if (ret < 0 || tid <= 0) result_s("refused", ob, "err");
+			else {
+				/* the result (object differs from the defaults) is a memcmp over the struct including its padding:
+				 * not reported, it depends on the bytes the memory held before mpt_<kind>_init() */
+				printf("R ok %s | C ", pr.name ? pr.name : "?");
+				put_dump(ob);
+				printf(" | I ret=ok\n");
+			}
+		}
 		else if (!strcmp(op, "reset") && drv_nw == 3) {
 			struct obj *ob = parse_obj(drv_w[2]);
 			int ret;
